@@ -76,6 +76,10 @@ Apply(f, a) ==
 
 To(pc) == [pc |-> pc]
 
+\* special items (C02: inputs that make the standard library raise)
+Unorderable(x) == x.k = 9       \* every ordering comparison involving it raises TypeError
+Unhashable(x) == x.k = 8        \* hashing it raises TypeError
+
 ---------------------------------------------------------------------------
 (* Iterator tools (C01, C05) -- the shape of the CPython implementations    *)
 
@@ -386,7 +390,9 @@ Reduce(s, r) ==
 MinMax(s, r, isMax) ==
   LET Better(k, bk) == IF isMax THEN k > bk ELSE k < bk
       Consider(x, k) ==
-        IF s.has /\ ~Better(k, s.bk)
+        IF s.has /\ ~cfg.par.key /\ (Unorderable(x) \/ Unorderable(s.best))
+        THEN [s |-> To("end"), eff |-> RaiseX("TypeError")]       \* the comparison itself fails
+        ELSE IF s.has /\ ~Better(k, s.bk)
         THEN [s |-> [pc |-> "got", has |-> TRUE, best |-> s.best, bk |-> s.bk], eff |-> Pull(1)]
         ELSE [s |-> [pc |-> "got", has |-> TRUE, best |-> x, bk |-> k], eff |-> Pull(1)] IN
   CASE s.pc = "init" ->
@@ -417,6 +423,7 @@ Collect(s, r, kind) ==
   CASE s.pc = "init" -> [s |-> [pc |-> "got", acc |-> <<>>], eff |-> Pull(1)]
     [] s.pc = "got" ->
          IF r.k = "stop" THEN [s |-> To("end"), eff |-> Return(s.acc)]
+         ELSE IF kind \in {"set", "dict"} /\ Unhashable(r.v) THEN [s |-> To("end"), eff |-> RaiseX("TypeError")]
          ELSE [s |-> [pc |-> "got", acc |-> Add(s.acc, r.v)], eff |-> Pull(1)]
 
 \* stable sort of a sequence of [x, key] records; reverse keeps equal elements in
@@ -442,7 +449,9 @@ Sorted(s, r, mode) ==
   LET rev == IF mode = "sorted" THEN cfg.par.rev ELSE mode = "nlargest"
       Finish(acc) ==
         LET full == Xs(StableSort(acc, rev)) IN
-        [s |-> To("end"), eff |-> Return(IF mode = "sorted" THEN full ELSE FirstN(full, cfg.par.n))] IN
+        IF ~cfg.par.key /\ Len(acc) >= 2 /\ (\E j \in 1..Len(acc) : Unorderable(acc[j].x)) /\ (mode = "sorted" \/ cfg.par.n >= 1)
+        THEN [s |-> To("end"), eff |-> RaiseX("TypeError")]       \* some comparison involves it
+        ELSE [s |-> To("end"), eff |-> Return(IF mode = "sorted" THEN full ELSE FirstN(full, cfg.par.n))] IN
   CASE s.pc = "init" ->
          IF mode # "sorted" /\ cfg.par.n <= 0 THEN [s |-> To("end"), eff |-> Return(<<>>)]  \* nothing is consumed
          ELSE [s |-> [pc |-> "got", acc |-> <<>>], eff |-> Pull(1)]
@@ -539,6 +548,8 @@ K1 == {1}            \* opaque items: only identity matters
 K01 == {0, 1}        \* truth values / predicate outcomes
 K12 == {1, 2}        \* two key classes: ties among distinguishable items
 K123 == {1, 2, 3}
+K129 == {1, 2, 9}    \* ... with an unorderable item
+K128 == {1, 2, 8}    \* ... with an unhashable item
 
 DataSets(n, K) == [1..n -> SeqsUpTo(K, MaxLen)]
 NoPar == [z |-> 0]
@@ -591,18 +602,22 @@ ConfigsOf(t) ==
     [] t \in {"min", "max"} ->
          \* dflt: "no" | "fresh" (an object of its own) | "first" (the very object that is also
          \* the first item, if there is one): only for empty input is the default the result
-         {[tool |-> t, par |-> [key |-> b, dflt |-> v], data |-> d] :
-             b \in BOOLEAN, v \in {"no", "fresh", "first"}, d \in DataSets(1, K12)}
+         UNION {{[tool |-> t, par |-> [key |-> b, dflt |-> v], data |-> d] :
+                   v \in {"no", "fresh", "first"}, d \in DataSets(1, IF b THEN K12 ELSE K129)} : b \in BOOLEAN}
     [] t \in {"list", "tuple"} ->
          {[tool |-> t, par |-> NoPar, data |-> d] : d \in DataSets(1, K1)}
     [] t \in {"set", "dict"} ->
-         {[tool |-> t, par |-> NoPar, data |-> d] : d \in DataSets(1, K12)}
+         {[tool |-> t, par |-> NoPar, data |-> d] : d \in DataSets(1, K128)}
     [] t = "sorted" ->
-         {[tool |-> t, par |-> [key |-> b, rev |-> v], data |-> d] :
-             b \in BOOLEAN, v \in BOOLEAN, d \in DataSets(1, K123)}
+         UNION {{[tool |-> t, par |-> [key |-> b, rev |-> v], data |-> d] :
+                   v \in BOOLEAN, d \in DataSets(1, IF b THEN K123 ELSE K129)} : b \in BOOLEAN}
     [] t \in {"nlargest", "nsmallest"} ->
-         {[tool |-> t, par |-> [key |-> b, n |-> m], data |-> d] :
-             b \in BOOLEAN, m \in 0..(MaxLen + 1), d \in DataSets(1, K123)}
+         \* at most one unorderable item: heapq compares (item, order) tuples, so two *equal*
+         \* unorderable items are ordered by their position without ever using "<"
+         UNION {{[tool |-> t, par |-> [key |-> b, n |-> m], data |-> d] :
+                   m \in 0..(MaxLen + 1),
+                   d \in {dd \in DataSets(1, IF b THEN K123 ELSE K129) :
+                            Cardinality({j \in 1..Len(dd[1]) : dd[1][j] = 9}) <= 1}} : b \in BOOLEAN}
 
     [] t = "any_iter" ->
          {[tool |-> t, par |-> [outer |-> b, aw |-> v], data |-> d] : b \in BOOLEAN, v \in BOOLEAN, d \in DataSets(1, K1)}
